@@ -68,7 +68,7 @@ PROPS["C16"] = {
 
 PROPS["C07"] = {
     "witness_always": ["stdlib_expansion"],
-    "witness_bound": {"stdlib_expansion": "1232 generated conditional trees of depth <= 3 (\\iftrue/\\iffalse/\\ifnum/\\ifodd incl. negative operands/\\ifcase -1..3, \\let aliases, unbalanced braces in skipped text) against a tree evaluator; every token string of length <= 6 over {\\expandafter, three macros, a letter} (19530 strings) expanded by BOTH \\expandafter implementations against a transcription of TeX's expand-once rule"},
+    "witness_bound": {"stdlib_expansion": "1232 generated conditional trees of depth <= 3 (\\iftrue/\\iffalse/\\ifnum/\\ifodd incl. negative operands/\\ifcase -1..3, \\let aliases, unbalanced braces in skipped text) against a tree evaluator; every token string of length <= 6 over {\\expandafter, three macros, a letter, a macro with a DELIMITED parameter (which grabs tokens unexpanded, so the moment of each expansion shows in the output)} (42856 strings without runaway arguments) expanded by BOTH \\expandafter implementations against a transcription of TeX's expand-once rule"},
     "level": "proof",
     "verus": ["stdlib_cond"],
     "kani": [],
